@@ -530,3 +530,41 @@ def int_operand_rule(m, rid):
     if undecided:
         r.notes.append("int() operands not traced to a regex literal (not decided): %s" % undecided)
     return r
+
+
+# =================================================================================================
+# regex match objects are dereferenced only after a None test
+# =================================================================================================
+def match_object_rule(m, rid):
+    from rules import delim_rules as D
+    from rules import optional_rules as O
+    r = RuleResult(rid, "the result of a regex match()/search() on the text being parsed is dereferenced (.group/.start/.end) only on paths "
+                        "that established it is not None")
+    r.floor = 35
+    for (path, q), f in sorted(m.funcs.items()):
+        if "/tests/" in path or "/fparser/" not in path or "/one/" in path or "/scripts/" in path:
+            continue
+        mvars = {}
+        for n in A.body_nodes(f.node):
+            if isinstance(n, ast.Assign) and len(n.targets) == 1 and isinstance(n.targets[0], ast.Name) and isinstance(n.value, ast.Call):
+                fn = n.value.func
+                if isinstance(fn, ast.Attribute) and fn.attr in ("match", "search", "fullmatch") and not A.text(fn.value).endswith("Base") \
+                        and "cls" not in A.text(fn.value).lower():
+                    mvars.setdefault(n.targets[0].id, []).append(n)
+                elif isinstance(fn, ast.Name) and (fn.id.endswith("_re") or fn.id.startswith("_IS_") or fn.id.endswith("_RE")):
+                    mvars.setdefault(n.targets[0].id, []).append(n)
+        if not mvars:
+            continue
+        P = A.parents(f.node)
+        for n in A.body_nodes(f.node):
+            if isinstance(n, ast.Attribute) and isinstance(n.value, ast.Name) and n.value.id in mvars \
+                    and n.attr in ("group", "start", "end", "groups", "span", "groupdict"):
+                if not [d for d in mvars[n.value.id] if d.lineno <= n.lineno]:
+                    continue
+                r.instances += 1
+                ok = O.proves_not_none(D.facts_at(f.node, n, P), n.value.id)
+                r.ob(ok, "%s: `%s` after a None test" % (q, A.text(n)) if r.instances % 10 == 0 else None)
+                if not ok:
+                    r.fail("%s|match-deref|%s" % (q, A.text(n)), "%s dereferences the match object `%s` (`%s`) without having tested it: for text the "
+                           "pattern does not match this is an AttributeError that escapes the parser" % (q, n.value.id, A.text(n)), m.loc(f, n))
+    return r
